@@ -117,7 +117,7 @@ def exc_chain(e):
     return out
 
 
-def run_point(p, variant=0):
+def run_point(p, variant=0, no_retry=False):
     """Execute lattice point p (dict of level names) once.  Returns the observation record."""
     import urllib3
     from urllib3.connection import HTTPSConnection
@@ -158,7 +158,7 @@ def run_point(p, variant=0):
         warnings.simplefilter("always")
         try:
             # API variants (not lattice dimensions): bare pool or PoolManager; retries off or one retry
-            retries = False if variant % 4 else 1
+            retries = False if (variant % 4 or no_retry) else 1
             obs["api"] = {"retries": retries, "via": "pool"}
             if route == "direct" and variant % 3 != 2:
                 pool = urllib3.HTTPSConnectionPool(HOSTS[p["host"]], 443, retries=retries, **kw)
